@@ -1203,6 +1203,25 @@ jump_handshake(br_ssl_engine_context *cc, int action)
 			br_ssl_engine_fail(cc, BR_ERR_UNEXPECTED);
 			return;
 		}
+
+		/*
+		 * A ChangeCipherSpec is read at once by a handshake
+		 * processor that expects it. If its payload is left
+		 * unread, then the processor is busy with something
+		 * else (sending its own flight) and will later look
+		 * for handshake messages: these bytes would then be
+		 * parsed as such, without being part of the handshake
+		 * transcript (only bytes from handshake records are
+		 * hashed), i.e. unprotected by the Finished messages.
+		 * No honest peer sends a ChangeCipherSpec at such a
+		 * time.
+		 */
+		if (cc->hlen_in != 0
+			&& cc->record_type_in == BR_SSL_CHANGE_CIPHER_SPEC)
+		{
+			br_ssl_engine_fail(cc, BR_ERR_UNEXPECTED);
+			return;
+		}
 		break;
 	}
 }
